@@ -10,7 +10,7 @@ RULE = (
     "(formula) for each seeded cell (kind F2/FL/F3/g1, TMC mode 1/2/3, process, heavyness, PTO 0..2 with SV keys, x, Q2, M) the TMC run is "
     "compared, for every order key, with the Schienbein et al. / Bluemlein-Tkabladze-Accardi-Melnitchouk formula assembled from the "
     "operators of a TMC=0 run of the same card at x=xi and at the grid nodes (documented discretisation F(u)=sum_j F(x_j)p_j(u)); the "
-    "kernel weights int_xi^1 du k(u)p_j(u) (k = 1/u^2, (u-xi)/u^2, ln(u/xi)/u^2) come from own quadrature; rtol 1e-7. (continuity) a scan "
+    "kernel weights int_xi^1 du k(u)p_j(u) (k = 1/u^2, (u-xi)/u^2, ln(u/xi)/u^2) come from own quadrature; rtol 1e-7; in a third of the cases the same request is first run on two other grids in the same process. (continuity) a scan "
     "M in {1,.3,.1,.03,.01,0}: the correction must shrink at least like M^2 and be exactly zero at M=0. (reject) a request whose "
     "Nachtmann variable falls below the grid must raise an explicit error. Distinct = (monitor, kind, mode, process, heavyness, PTO); "
     "non-trivial = the uncorrected operator is non-zero and M>0."
@@ -27,7 +27,7 @@ def budget(tier):
 
 def floor(tier):
     return dict(min_conclusive=40 if tier == "quick" else 700, min_nontrivial=30 if tier == "quick" else 150,
-                classes=["formula", "continuity", "reject", "F2", "FL", "F3", "g1", "APFEL", "approx", "exact"], min_compared=2000)  # fmt: skip
+                classes=["formula", "continuity", "reject", "regrid", "F2", "FL", "F3", "g1", "APFEL", "approx", "exact"], min_compared=2000)  # fmt: skip
 
 
 def cases(tier, rng):
@@ -47,7 +47,7 @@ def cases(tier, rng):
         pts = cards.rand_points(rng, g["xgrid"], n=2, q2lo=2.0, q2hi=300.0, xmax=0.85)
         for p in pts:
             p["x"] = float(max(p["x"], min(0.45, g["xgrid"][1] * 2.5)))
-        out.append(dict(id=f"c10-{i}", mon=mon, kind=kind, heavy=heavy, grid=g, points=pts, **cfg))
+        out.append(dict(id=f"c10-{i}", mon=mon, kind=kind, heavy=heavy, grid=g, points=pts, regrid=bool(mon == "formula" and i % 3 == 0), **cfg))
     return out
 
 
@@ -231,6 +231,16 @@ def run_case(case):
 
     # formula monitor
     interp = run.interpolator(mkobs({}))
+    if case.get("regrid"):
+        # the very same request first on other grids (same size but other nodes / other degree) in this process: run-wide or
+        # process-wide memos of TMC ingredients that forget the grid would now serve stale numbers to the judged run
+        classes.add("regrid")
+        g2 = [float(v) for v in np.array(g["xgrid"][:-1]) ** 0.93] + [1.0]
+        for xg_, deg_ in ((g2, g["deg"]), (g["xgrid"], max(1, g["deg"] - 1))):
+            try:
+                run.run(th, cards.observables({name: pts}, xgrid=xg_, deg=deg_, is_log=g["is_log"], **case["obs"]))
+            except ValueError:
+                pass
     out = run.run(th, mkobs({name: pts}))
     for p, res in zip(pts, out[name]):
         mu, r, xi = tmc_vars(p["x"], p["Q2"], M)
